@@ -323,23 +323,4 @@ theorem shutdown_teid (cfg : Cfg) (w : World) (a : Nat) (hI : Inv cfg w) (hT : T
   rw [foldl_drop_conns]
   exact this.2
 
-/-- **C07 on the agent model, every history without modifications**: both invariants together -/
-theorem inv_teid_run (cfg : Cfg) : ∀ (evs : List Ev) (w : World), Inv cfg w → TeidInv w → EnvOK cfg w evs →
-    Inv cfg (evs.foldl (stepEv cfg) w) ∧ TeidInv (evs.foldl (stepEv cfg) w)
-  | [], _, hI, hT, _ => ⟨hI, hT⟩
-  | ev :: rest, w, hI, hT, henv => by
-    rw [List.foldl_cons]
-    have hI' : Inv cfg (stepEv cfg w ev) := inv_run cfg [ev] w hI ⟨henv.1, trivial⟩
-    refine inv_teid_run cfg rest _ hI' ?_ henv.2
-    cases ev with
-    | assoc a node => exact hT.congr_sessions cfg w a { w.conn a with remoteNode := node } hI rfl rfl (assocSetup w a node) (setConn_conns _ _ _) (setConn_teid _ _ _)
-    | pfd a apps ok =>
-      cases ok
-      · exact hT
-      · exact hT.congr_sessions cfg w a { w.conn a with apps := apps } hI rfl rfl (w.setConn a { w.conn a with apps := apps }) (setConn_conns _ _ _) (setConn_teid _ _ _)
-    | est a lseid r => exact establish_teid cfg w a lseid r hI.keys hT
-    | del a seid => exact delete_teid cfg w a seid hI hT
-    | report a seid => exact report_teid cfg w a seid hI hT
-    | shutdown a => exact shutdown_teid cfg w a hI hT
-
 end Agent
